@@ -37,6 +37,7 @@ type tunCfg struct {
 	LateMax     time.Duration
 	Adversary   int // chaos frames injected
 	Director    int // epoch-level faults injected
+	StaleAt     int // >0: after this many acknowledged requests the gateway leaves stale acknowledgements on offer and replaces the connection
 	Sticky      int
 	PCT         int
 	Window      int  // gateway's outbound window (1 = stop-and-wait)
@@ -250,8 +251,12 @@ func drawTunCfg(e *Env) tunCfg {
 	case "C12":
 		c.Senders = 1
 	}
+	if total := c.Senders * c.SendsEach; total > 1 && !c.FaultFree && !c.ForeignOnly && shape != 9 && (p == "C03" || p == "C05" || p == "C09" || p == "C10") && e.Choose("cfg.stale", 4) == 0 {
+		c.StaleAt = 1 + e.Choose("cfg.staleat", min(total-1, 12))
+	}
 	c.Up.LateExtra, c.Down.LateExtra = 3*c.R, 3*c.R
 	if c.TCP {
+		c.StaleAt = 0
 		c.WriteErr, c.ReadErr = 0, false
 		c.Adversary, c.Director = 0, 0
 		c.Up.DropPermille, c.Up.DupPermille, c.Up.LatePermille = 0, 0, 0
@@ -261,10 +266,10 @@ func drawTunCfg(e *Env) tunCfg {
 }
 
 func (c tunCfg) String() string {
-	return fmt.Sprintf("tcp=%v R=%v T=%v H=%v local=%v senders=%dx%d think=%v inbound=%d/%v reader=%s closers=%d early=%v up={drop=%d dup=%d late=%d dmax=%v} down={drop=%d dup=%d late=%d dmax=%v} tlate=%d adv=%d dir=%d foreignonly=%v sticky=%d pct=%d window=%d starve=%d/%v reusechan=%v werr=%d rerr=%v stall=%d/%v",
+	return fmt.Sprintf("tcp=%v R=%v T=%v H=%v local=%v senders=%dx%d think=%v inbound=%d/%v reader=%s closers=%d early=%v up={drop=%d dup=%d late=%d dmax=%v} down={drop=%d dup=%d late=%d dmax=%v} tlate=%d adv=%d dir=%d foreignonly=%v sticky=%d pct=%d window=%d starve=%d/%v reusechan=%v werr=%d rerr=%v stall=%d/%v stale=%d",
 		c.TCP, c.R, c.T, c.H, c.LocalAddr, c.Senders, c.SendsEach, c.Think, c.Inbound, c.InboundGap, c.Reader, c.Closers, c.CloseEarly,
 		c.Up.DropPermille, c.Up.DupPermille, c.Up.LatePermille, c.Up.DelayMax, c.Down.DropPermille, c.Down.DupPermille, c.Down.LatePermille, c.Down.DelayMax,
-		c.TimerLate, c.Adversary, c.Director, c.ForeignOnly, c.Sticky, c.PCT, c.Window, c.Starve, c.StarveMax, c.ReuseChan, c.WriteErr, c.ReadErr, c.Stall, c.StallMax)
+		c.TimerLate, c.Adversary, c.Director, c.ForeignOnly, c.Sticky, c.PCT, c.Window, c.Starve, c.StarveMax, c.ReuseChan, c.WriteErr, c.ReadErr, c.Stall, c.StallMax, c.StaleAt)
 }
 
 func idMessage(id int) cemi.Message {
@@ -381,6 +386,10 @@ func runTunnel(e *Env) {
 	r.gw = newGateway(e, gwIP, gwPort)
 	r.gw.Window = c.Window
 	r.gw.ReuseChannel = c.ReuseChan
+	r.gw.StaleAfter = c.StaleAt
+	if c.Adversary > 0 {
+		r.gw.StaleExtra = 3 // forged acknowledgements belong to the adversarial profiles only (C05 relates Send results to the bus)
+	}
 	r.gw.Start()
 
 	tun, err := knx.NewTunnel(fmt.Sprintf("%s:%d", gwIP, gwPort), knxnet.TunnelLayerData, knx.TunnelConfig{
@@ -669,7 +678,18 @@ func (r *tunRun) director() {
 		if r.closed {
 			return
 		}
-		switch e.Choose("flt.dirkind", 10) {
+		switch e.Choose("flt.dirkind", 12) {
+		case 11: // acknowledgements nobody waits for (own channel, low numbers) are put on offer inside the client, then the connection is replaced
+			if cur := g.Cur(); cur != nil && c.Adversary > 0 {
+				e.Fault("stale-acks-then-disconnect")
+				n := 1 + e.Choose("flt.stalen", 3)
+				for q := 0; q < n; q++ {
+					g.SendRaw(mkTunnelRes(cur.Channel, uint8(q), 0))
+				}
+				g.Disconnect()
+			}
+		case 10: // the next acknowledgement goes out twice, and the gateway ends the connection right after it
+			g.DupAckThenDisc = time.Duration(1+e.Choose("flt.staledisc", 8)) * c.R / 16
 		case 9: // the gateway rejects the next tunnelling request with an error status
 			g.AckStatus = []uint8{0x24, 0x25, 0x21, 0x29, 0x04, uint8(1 + e.Choose("flt.ackst", 255))}[e.Choose("flt.ackstk", 6)]
 			g.AckStatusOnce = true
